@@ -1,16 +1,29 @@
-"""C13 -- no input on RTSP, RTP/RTCP, GB28181, WebSocket surfaces terminates lal (spec/Surfaces.tla, driver surfaces)."""
+"""C13 -- no input on RTSP, RTP/RTCP, GB28181, WebSocket, HTTP surfaces or from an upstream server terminates lal
+(spec/Surfaces.tla, driver surfaces)."""
 import json
 import engine as E
 
-SURFS = ["rtp", "ps", "rtsp", "sdp", "ws"]
-QUICK_CAP = {"rtp": 2600, "ps": 6000, "rtsp": 2200, "sdp": 1300, "ws": 1200}
-THOROUGH_CAP = {"rtp": 30000, "ps": 60000, "rtsp": 30000, "sdp": 12000, "ws": 12000}
+SURFS = ["rtp", "udp", "ps", "psq", "rtsp", "sdp", "ws", "http", "client"]
+QUICK_CAP = {"rtp": 2600, "udp": 3000, "ps": 6000, "psq": 3000, "rtsp": 2200, "sdp": 1300, "ws": 1200, "http": 2000, "client": 1200}
+THOROUGH_CAP = {"rtp": 30000, "udp": 25000, "ps": 60000, "psq": 30000, "rtsp": 30000, "sdp": 12000, "ws": 12000, "http": 50000, "client": 10000}
+GOOD_SDP = {"shape": "ok", "v": "avc", "vr": "ok", "vf": "ok", "a": "aac", "ar": "ok", "af": "ok", "ctl": "ok"}
 
 
 def el_class(el):
     if el.get("k") == "sdp":
         return "sdp"
     return "%s/%s/%s/%s" % (el.get("k"), el.get("a"), el.get("b"), el.get("c"))
+
+
+def always(surf, a):
+    """Sequences executed in every run, whatever the cap: single elements, and for the SDP surface every record
+    that differs from the well-formed one in at most one field."""
+    st = a["steps"]
+    if surf == "sdp":
+        return sum(1 for f in GOOD_SDP if st[0].get(f) != GOOD_SDP[f]) <= 1
+    if surf == "client":
+        return False
+    return len(st) <= 1
 
 
 def run(ctx):
@@ -28,15 +41,13 @@ def run(ctx):
                 continue
             seen.add(key)
             items.append(a)
-        # every short sequence is executed; longer ones are sampled (seeded) up to the tier's cap
+        # some sequences are executed in every run (see always()); the others are sampled by seed up to the cap
         cap = (QUICK_CAP if ctx.quick else THOROUGH_CAP)[s]
-        items.sort(key=lambda a: (len(a["steps"]), json.dumps(a, sort_keys=True)))
-        short = [a for a in items if len(a["steps"]) <= (2 if s != "ps" else 1)]
-        rest = [a for a in items if len(a["steps"]) > (2 if s != "ps" else 1)]
-        if s == "ps":   # PS sequences of length 2 and 3 are cheap: take all that fit
-            pass
+        items.sort(key=lambda a: json.dumps(a, sort_keys=True))
+        first = [a for a in items if always(s, a)]
+        rest = [a for a in items if not always(s, a)]
         ctx.rng.shuffle(rest)
-        chosen = short[:cap] + rest[:max(0, cap - len(short))]
+        chosen = first + rest[:max(0, cap - len(first))]
         per[s] = (len(items), len(chosen))
         for a in chosen:
             scen.append({"sc": len(scen), "surf": a["surf"], "cfg": a["cfg"], "steps": a["steps"]})
@@ -52,11 +63,14 @@ def run(ctx):
     ctx.cov["evaluations"] = sum(1 for r in rows if r["ev"] == "step")
     ctx.cov["distinct_nontrivial"] = len(scen)
     ctx.cov["per_surface_enumerated_executed"] = per
-    ctx.cov["rule"] = ("per surface (RTP/RTCP datagrams of an RTSP publisher with and without a key-frame-waiting subscriber, "
-                       "GB28181 PS-in-RTP, RTSP commands + interleaved frames, SDP class records, RTSP over WebSocket frames): "
-                       "all element sequences core* . element to the depth of the tier enumerated by TLC; every sequence of "
-                       "length <= 2 executed, longer ones sampled by seed; each in a child process against a real "
-                       "logic.ServerManager; death of the child attributed to the scenario in flight and confirmed alone")
+    ctx.cov["rule"] = ("per surface (rtp: RTP/RTCP datagrams of an interleaved RTSP publisher, with/without a key-frame-waiting "
+                       "subscriber, SDP clock rate classes; udp: UDP-transport publisher, tracks set up x payload type x SR SSRC; "
+                       "ps: GB28181 PS elements in RTP; psq: GB28181 RTP sequencing incl. fill-to-limit; rtsp: commands + interleaved "
+                       "frames; sdp: SDP class records; ws: RTSP over WebSocket frames; http: HTTP-API / HTTP-FLV / HTTP-TS / HLS "
+                       "requests; client: what an upstream sends to lal's RTMP pull/push, RTSP pull, HTTP-FLV pull sessions): all "
+                       "element sequences core* . element to the depth of the tier enumerated by TLC; single elements (and SDP "
+                       "records one field off) always executed, the rest sampled by seed up to a cap; each in a child process "
+                       "against a real logic.ServerManager; death of the child attributed to the scenario in flight and confirmed alone")
     ctx.sample(scen[0])
     ctx.sample(scen[-1])
     rej = E.validate(ctx, "Trace_Surfaces", "Trace_Surfaces.cfg", rows)
@@ -75,18 +89,22 @@ def run(ctx):
                 sig = "second_session_not_served:%s" % surf
             elif not ev["bystander"]:
                 sig = "bystander_closed:%s" % surf
+            elif surf == "client" and ev.get("res") != "ok" and not ev["note"]:
+                sig = "valid_exchange_failed:client:%s" % tr[0]["cfg"].get("proto")
             else:
                 sig = "end:%s:%s" % (surf, (ev["note"] or "steps").split(" ")[0])
             last = tr[0]["steps"][-1] if tr[0]["steps"] else {}
-            text = "scenario %s ended %s; last element %s" % (json.dumps(tr[0]["steps"])[:400], json.dumps(ev)[:300], json.dumps(last))
+            text = "scenario cfg=%s steps=%s ended %s; last element %s" % (json.dumps(tr[0]["cfg"]), json.dumps(tr[0]["steps"])[:400], json.dumps(ev)[:300], json.dumps(last))
         else:
             o = ev.get("obs", {})
             sig = "step:%s:%s:%s" % (surf, el_class(ev.get("el", {})) if surf in ("rtsp", "sdp") else ev.get("el", {}).get("k"),
                                      "panic" if o.get("panic") else ("closed" if not o.get("alive") else "codes"))
             text = "step %s observed %s" % (json.dumps(ev.get("el"))[:300], json.dumps(o))
         E.report(ctx, sig, text, {"scenario": tr[0], "event": ev})
-    ctx.assumptions += ["independent encoders harness/proj/surf.go (RTP/RTCP, RFC 6184/7798/3640 payloads, PS elements, SDP, WebSocket)",
-                        "sessions run on in-memory connections (what rtsp.Server / WebsocketServer do per accepted connection); "
-                        "PS packets are fed to gb28181.PsUnpacker wired like Group.StartRtpPub; UDP sockets, TLS, HTTP-API/HLS/HTTP-FLV "
-                        "requests and lal-as-client replies are not driven",
+    ctx.assumptions += ["independent encoders harness/proj/surf.go, surf2.go (RTP/RTCP, RFC 6184/7798/3640 payloads, PS elements, SDP, "
+                        "WebSocket, HTTP requests, API JSON, RTMP / RTSP / FLV upstream elements)",
+                        "RTSP sessions run on in-memory connections (what rtsp.Server / WebsocketServer do per accepted connection), "
+                        "UDP-transport publishers get real loopback datagrams; PS packets are fed to gb28181.PsUnpacker wired like "
+                        "Group.StartRtpPub; HTTP handlers sit behind real net/http servers on loopback; client sessions dial a "
+                        "scripted loopback upstream; TLS and the GB28181 TCP framing are not driven",
                         "log assert_behavior at the shipped default"]
